@@ -635,6 +635,7 @@ func runC08(c *Check) {
 	c.ruleRelevanceScansEverything("R13", "R14")
 	c.ruleSubscriptionHashProvenance("R15")
 	c.ruleContractSubscriptionIsFlag("R16")
+	c.ruleLoopVarSliceStaysInIteration("R17", c.P.FuncsIn("client", "spynode"))
 
 	// ---- R4 who may write
 	nW := 0
